@@ -66,7 +66,10 @@ def gen_att(rng, tier, seed):
     for svc in db['services']:
         for c in svc['chars']:
             if rng.random() < 0.08:
-                c['kind'] = rng.choice(['raising_cb', 'raising_async_cb'])
+                # ('typed': a text characteristic behind an adapter; a write that is not valid UTF-8 cannot be decoded)
+                c['kind'] = rng.choice(['raising_cb', 'raising_async_cb', 'typed', 'typed'])
+                if c['kind'] == 'typed':
+                    c['perms'] = 0x03  # open for reading and writing, so that the value does get as far as the adapter
     # a service declaration that refuses to be read on this (plain) link: Read By Group Type / Read By Type over it still get one answer
     for svc in db['services']:
         if rng.random() < 0.12:
@@ -87,6 +90,10 @@ def gen_att(rng, tier, seed):
         if r < 0.05 and not mtu_done:
             mtu_done = True
             ops.append(['mtu', rng.choice([mtu_hint, 23, 22, 0, 100, 517, 600, 65535])])
+        elif r < 0.06 and bearer == 'eatt':
+            # an Exchange MTU Request on an enhanced bearer, with a receive MTU below the minimum so that nothing may change: it is a
+            # request all the same and gets its one answer (a response, or an error response)
+            ops.append(['mtu', rng.choice([22, 0, 1]), 'eatt'])
         elif r < 0.13:
             ops.append(['req', bearer, 'find_information', _range(rng)])
         elif r < 0.19:
@@ -139,7 +146,7 @@ class Bearer:
 
 
 def run_att(case):
-    from bumble import att, l2cap
+    from bumble import att, gatt, l2cap
 
     sim = Sim(case['seed'], case.get('profile', 'zero'), slow_node='N1')
     try:
@@ -162,7 +169,7 @@ def run_att(case):
                 by_kind['svc'].append(a_.handle)
             elif cls == 'CharacteristicDeclaration' or cls == 'IncludedServiceDeclaration':
                 by_kind['decl'].append(a_.handle)
-            elif cls == 'Characteristic' or cls.endswith('Characteristic'):
+            elif cls == 'Characteristic' or cls.endswith('Characteristic') or isinstance(a_, gatt.Characteristic):
                 by_kind['val'].append(a_.handle)
             elif cls == 'Descriptor':
                 if t in (b'\x02\x29', bytes.fromhex('0229')):
@@ -281,7 +288,10 @@ def run_att(case):
             if name == 'read_by_group_type':
                 return struct.pack('<BHH', 0x10, H(op[3][0]), H(op[3][1])) + U(op[4])
             if name == 'write':
-                return struct.pack('<BH', 0x12, H(op[3])) + bytes((i * 5 + 1) & 0xFF for i in range(op[4]))
+                body = bytes((i * 5 + 1) & 0xFF for i in range(op[4]))
+                if op[4] >= 2 and (H(op[3]) + op[4]) % 2:
+                    body = b'\xc3\x28' + body[2:]  # not UTF-8: a typed (text) characteristic cannot decode it
+                return struct.pack('<BH', 0x12, H(op[3])) + body
             if name == 'prepare_write':
                 return struct.pack('<BHH', 0x16, H(op[3]), op[4]) + bytes(op[5])
             if name == 'execute_write':
@@ -346,6 +356,11 @@ def run_att(case):
         push_tasks = []
         for op in case['ops']:
             kind = op[0]
+            if kind == 'mtu' and len(op) > 2:
+                if op[2] in bearers and op[1] < 23:
+                    expect_one(bearers[op[2]], struct.pack('<BH', 0x02, op[1]), 'exchange_mtu')
+                    sim.probe('exchange_mtu_on_an_enhanced_bearer')
+                continue
             if kind == 'mtu':
                 r = expect_one(fixed, struct.pack('<BH', 0x02, op[1]), 'exchange_mtu')
                 if r is not None and r[0] == 0x03 and len(r) >= 3:
